@@ -600,10 +600,8 @@ func fixedProgCases() []caseT {
 func signature(c caseT, ans map[string]string) string {
 	switch c.Kind {
 	case "repr":
-		v, _ := new(big.Int).SetString(c.Value, 10)
-		if inGap(c.Type, v) {
-			return "signed-gap"
-		}
+		// representableConst is exact for every kind and every integer since the repair of F03
+		// (representable_correct): every repr case lies inside the proved domain
 	case "prog":
 		if cl := ans["cls"]; cl != "" && cl != "-" {
 			return cl
